@@ -261,6 +261,9 @@ Arguments lit s%string_scope.
 Theorem files_case_distinct_refuted : exists names, files_ok names = false.
 Proof. exists [tl "a" "foo"; tl "a" "fOO"]. vm_compute. reflexivity. Qed.
 
+Theorem dirs_case_distinct_refuted : exists names, dirs_ok names = false.
+Proof. exists [tl "a" "foo"; tl "a" "fOO"]. vm_compute. reflexivity. Qed.
+
 (** (b) a.foo, aFoo, a_foo: one constant name AFoo, declared three times *)
 Theorem consts_nodup_refuted : exists names, NoDup names /\ consts_ok names = false.
 Proof.
@@ -276,8 +279,8 @@ Theorem fields_vs_methods_refuted :
   (exists fs, fields_ok struct_methods_always fs = false).
 Proof.
   split.
-  - exists [Field (lit "string") AccNone]. vm_compute. reflexivity.
-  - exists [Field (lit "reset") AccNone]. vm_compute. reflexivity.
+  - exists [Field (lit "string") AccNone false]. vm_compute. reflexivity.
+  - exists [Field (lit "reset") AccNone false]. vm_compute. reflexivity.
 Qed.
 
 (** (d) a type named `unused`: Go type Unused next to the helper func Unused *)
